@@ -44,6 +44,10 @@ CHECKS = {
                 technique="exhaustive single-fault enumeration: every file-system syscall of the runtime phase fails once with each errno of its class; outcome classified as abort-with-diagnostic or normal return and the final and temporary directories examined",
                 text="Scenarios and modes as C09; every runtime-phase mkdir, openat, write, read, close, newfstatat, getdents64, unlink, rmdir fails once with EACCES/ENOSPC/EMFILE/EIO (per class). The process must either be terminated by abort() with a diagnostic on stderr, or return normally leaving a complete final trace (streams byte-identical to the fault-free run, metadata finished, accepted by ovniemu); in both cases no temporary stream file may have been removed while its copy in the final directory is incomplete.",
                 note="Trusted: strace error injection (call not executed, returns -errno). Single faults. Short writes are C01's subject."),
+    "C11": dict(level="model_checking", engine="E2 sched_driver (cooperative scheduler over real pthreads) + TSan pass", ref="DESIGN.md 5 (C11)",
+                technique="stateless model checking of the real libovni: systematic enumeration of all thread schedules with at most 2/3 preemptions (prefix-replay DFS, iterative context bounding), scheduling points at every atomic operation and every shared file-system / stdio call; each execution in a fresh process; failures replayed twice",
+                text="Scenarios: three threads racing ovni_proc_init with distinct arguments (the winner traces and finalises); two threads tracing concurrently after init, in direct and OVNI_TMPDIR mode; two threads racing ovni_proc_fini; ovni_thread_init racing ovni_proc_init. For every schedule within the preemption bound: exactly one init/fini returns and the others are refused, a thread admitted by the library completes, and its stream.obs and stream.json in the final directory are byte-identical to what the same script writes when it runs alone. A free-running ThreadSanitizer pass of the same bodies is reported separately (supporting evidence only).",
+                note="Trusted: the hand-off scheduler (one runnable thread at a time), sequentially consistent atomics (the library uses seq_cst only). Unsynchronised accesses that lie between scheduling points are only visible to the TSan pass. 2-3 threads, one thread life each."),
     "C12": dict(level="fault_enumeration", engine="E6 real ovniemu + lib/mutate.py", ref="DESIGN.md 5 (C12)",
                 technique="exhaustive single-corruption enumeration of four multi-model base traces (every position x every operator), each run through the real ovniemu -l; validity classified independently from the trace specification",
                 text="Four valid base traces (nOS-V with jumbo type events, Nanos6, MPI+TAMPI+marks, two looms with ranks + OpenMP/NODES/kernel; each ending like libovni does, with flush markers after the end event) x every single corruption: truncation at every byte offset, swap of every adjacent event pair with different clocks, every header byte x {00,ff,+1}, every event's model byte to a not-required and to an unregistered model, unknown event value, every wrong payload size of size-checked events, jumbo event replaced by a non-jumbo one, removal and 6-8 replacement values of every metadata key, truncated JSON. Whenever the corrupted trace is invalid by the specification, ovniemu must exit non-zero and must not print 'emulation finished ok'.",
@@ -122,6 +126,8 @@ def main():
              "kind_free_text": "task.c/body.c driven in-process, one history per line, full private state dumped"},
             {"name": "E5 crash_driver + strace", "path": "harness/crash_driver.c", "serves_properties": ["C09", "C10"],
              "kind_free_text": "traced program with libovni compiled in; strace injects SIGKILL or an errno at the N-th occurrence of a syscall"},
+            {"name": "E2 sched_driver", "path": "harness/sched_driver.c", "serves_properties": ["C11"],
+             "kind_free_text": "libovni compiled into a harness whose atomics and shared libc calls yield to a cooperative scheduler; Python DFS over choice prefixes with a preemption bound"},
             {"name": "TLC", "path": "tla/", "serves_properties": ["C04", "C05", "C06"],
              "kind_free_text": "TLA+ reference models; complete labelled state graph dumped and replayed against the implementation"},
         ],
